@@ -6,7 +6,7 @@ import ast
 from sa import flow
 from sa.model import AnalysisError, dotted, names_in, unparse
 from sa.rules import LEVEL_TEXT, rule
-from sa.rules.util import is_self_attr, iter_body_nodes, locals_defined_by, one_local, pfind, pmatch
+from sa.rules.util import closure_functions, is_self_attr, iter_body_nodes, locals_defined_by, one_local, pfind, pmatch
 
 LEVEL_TEXT["C14"] = (
     "Decides structural necessary conditions of C14: every Blockwise class resolves _task to a total provider; Fused takes "
@@ -52,11 +52,12 @@ def r14c(ctx):
     idx = task.args.args[1].arg
     stmts = list(task.body)
     # (b) member loop
-    loops = [s for s in stmts if isinstance(s, ast.For) and "exprs" in unparse(s.iter)]
+    tdefs = flow.Defs(task)
+    loops = [s for s in stmts if isinstance(s, ast.For) and "exprs" in unparse(tdefs.expand(s.iter, at=s))]
     if not loops:
         raise AnalysisError("anchor vanished: member loop of Fused._task")
     loop = loops[0]
-    it = unparse(loop.iter)
+    it = unparse(tdefs.expand(loop.iter, at=loop))
     (ctx.ok if it == "self.exprs" else ctx.bad)(
         "_expr.Fused._task:member-order",
         mod.loc(loop),
@@ -74,10 +75,16 @@ def r14c(ctx):
     (ctx.ok if bcast_ok else ctx.bad)("_expr.Fused._task:broadcast-member", mod.loc(loop), "broadcast members are defined once under index 0" if bcast_ok else "broadcast members are no longer defined under (name, 0) via _task(0)")
     (ctx.ok if norm_ok else ctx.bad)("_expr.Fused._task:member-task", mod.loc(loop), "member task stored under (member name, index)" if norm_ok else "ordinary members are not stored as graph[(member._name, index)] = member._task(index)")
     # (a) alias
-    alias = any(
-        isinstance(n, (ast.Dict, ast.Assign)) and "self._name" in ast.unparse(n) and f"(self.exprs[0]._name, {idx})" in ast.unparse(n)
-        for n in ast.walk(task)
-    )
+    alias = False
+    for st in stmts:
+        for n in ast.walk(st):
+            if isinstance(n, ast.Dict):
+                pairs = [(ast.unparse(tdefs.expand(k, at=st)), ast.unparse(tdefs.expand(v_, at=st))) for k, v_ in zip(n.keys, n.values) if k is not None]
+            elif isinstance(n, ast.Assign) and len(n.targets) == 1 and isinstance(n.targets[0], ast.Subscript):
+                pairs = [(ast.unparse(tdefs.expand(n.targets[0].slice, at=st)), ast.unparse(tdefs.expand(n.value, at=st)))]
+            else:
+                continue
+            alias = alias or any(k == "self._name" and v_ == f"(self.exprs[0]._name, {idx})" for k, v_ in pairs)
     (ctx.ok if alias else ctx.bad)("_expr.Fused._task:output-alias", mod.loc(task), "self._name aliases the top member's key" if alias else "the fused sub-graph no longer aliases self._name to (self.exprs[0]._name, index)")
     # (c) placeholder writes after the loop
     ph_nodes = []
@@ -98,10 +105,30 @@ def r14c(ctx):
     else:
         ctx.ok("_expr.Fused._task:placeholders-last", mod.loc(ph_nodes[0]), "placeholder bindings are the last writes into the sub-graph")
     # (d) same enumeration for placeholders and trailing args
-    deps_iters = [unparse(n.iter) for n in ast.walk(task) if isinstance(n, (ast.For, ast.comprehension)) and "dependencies()" in unparse(n.iter)]
+    def _dep_source(it_node, at):
+        """strip order-preserving wrappers (enumerate, tuple/list of `self._blockwise_arg(d, index) for d in X`) from an iteration source"""
+        x = tdefs.expand(it_node, at=at)
+        for _ in range(4):
+            if isinstance(x, ast.Call) and dotted(x.func) == "enumerate" and len(x.args) == 1:
+                x = x.args[0]
+            elif isinstance(x, ast.Call) and dotted(x.func) in ("tuple", "list") and len(x.args) == 1:
+                x = x.args[0]
+            elif isinstance(x, (ast.GeneratorExp, ast.ListComp)) and len(x.generators) == 1 and not x.generators[0].ifs and pmatch(f"self._blockwise_arg({ast.unparse(x.generators[0].target)}, {idx})", x.elt) is not None:
+                x = x.generators[0].iter
+            else:
+                break
+        return unparse(x)
+
+    deps_iters = []
+    for st in stmts:
+        for n in ast.walk(st):
+            if isinstance(n, (ast.For, ast.comprehension)):
+                src = _dep_source(n.iter, st)
+                if "dependencies()" in src:
+                    deps_iters.append(src)
     keyed = [n for n in ast.walk(task) if isinstance(n, ast.Call) and is_self_attr(n.func, "_blockwise_arg")]
-    good = len(deps_iters) >= 1 and all("self.dependencies()" in d for d in deps_iters) and all(len(k.args) == 2 and unparse(k.args[1]) == idx for k in keyed) and len(keyed) >= 1
-    order_ok = all(d in ("self.dependencies()", "enumerate(self.dependencies())") for d in deps_iters)
+    good = len(deps_iters) >= 1 and all(len(k.args) == 2 and unparse(k.args[1]) == idx for k in keyed) and len(keyed) >= 1
+    order_ok = all(d == "self.dependencies()" for d in deps_iters)
     (ctx.ok if good and order_ok else ctx.bad)(
         "_expr.Fused._task:dependency-order",
         mod.loc(task),
@@ -143,13 +170,18 @@ def r14d(ctx):
     else:
         ctx.bad("_expr.is_valid_blockwise_op", mod.loc(fn), f"fusion eligibility is `{txt}`: must require Blockwise and exclude {sorted(need - excl)} (their tasks embed data / foreign keys, not (name, index) keys of a dependency)")
     # the locals of the pass are identified by what they hold, not by their names
-    fp = next((n for n in ast.walk(outer) if isinstance(n, ast.FunctionDef) and n.name == "_fusion_pass"), None)
+    # the pass may be split over nested functions and helpers: they are found by what they contain
+    scope = [f for _, _, f in closure_functions(model, mod, None, outer, depth=2)]
+    scope += [n for n in ast.walk(outer) if isinstance(n, ast.FunctionDef) and n is not outer and all(n is not f for f in scope)]
+    # innermost first, so that the function that directly holds the construct is chosen over the one it is nested in
+    scope.sort(key=lambda f: sum(1 for _ in ast.walk(f)))
+    fp = next((f for f in scope if any(isinstance(c, ast.Call) and dotted(c.func) == "Fused" for c in ast.walk(f))), None)
     if fp is None:
-        raise AnalysisError("anchor vanished: _fusion_pass")
-    dependents = one_local(fp, "defaultdict(set)", "the consumers map of _fusion_pass")
+        raise AnalysisError("anchor vanished: Fused(...) construction in optimize_blockwise_fusion")
+    rec_fn = next((f for f in scope if locals_defined_by(f, "defaultdict(set)")), None)
+    if rec_fn is None:
+        raise AnalysisError("anchor vanished: the consumers map (a local assigned defaultdict(set)) of the fusion pass")
     fused = [c for c in ast.walk(fp) if isinstance(c, ast.Call) and dotted(c.func) == "Fused"]
-    if not fused:
-        raise AnalysisError("anchor vanished: Fused(...) construction in _fusion_pass")
     group = ast.unparse(fused[0].args[0]) if fused[0].args else None
     good = group is not None
     sub_ok = bool(pfind(f"V_e.substitute({group}[0], V_new)", fp))
@@ -167,7 +199,7 @@ def r14d(ctx):
     c1 = any(pfind(f"{dep}.npartitions == V_root.npartitions", x) and pfind(f"V_n._broadcast_dep({dep})", x) for x in terms)
     c2 = False
     for x, pol in pterms:
-        cands = [pmatch(f"{dependents}[{dep}._name] - V_a - V_b", x)] if not pol else [b for _, b in pfind(f"not {dependents}[{dep}._name] - V_a - V_b", x)]
+        cands = [pmatch(f"V_dependents[{dep}._name] - V_a - V_b", x)] if not pol else [b for _, b in pfind(f"not V_dependents[{dep}._name] - V_a - V_b", x)]
         for bb in (c for c in cands if c is not None):
             # the two subtracted sets are the names already in the group and those queued for it
             da = locals_defined_by(fp, "{V_s._name for V_s in V_src}")
@@ -200,9 +232,10 @@ def r14d(ctx):
         )
     # the dependents map must record EVERY consumer of a fusable node (the group condition subtracts group members from it;
     # a consumer that is not itself fusable - a reduction, a shuffle - is exactly the one that must keep the node out of a group)
-    dependencies = locals_defined_by(fp, "{}")
+    dependencies = locals_defined_by(rec_fn, "{}")
+    dependents = one_local(rec_fn, "defaultdict(set)", "the consumers map of the fusion pass")
     rec = []
-    for pt in flow.walk(fp):
+    for pt in flow.walk(rec_fn):
         for n in ast.walk(pt.stmt) if isinstance(pt.stmt, ast.Expr) else []:
             if isinstance(n, ast.Call) and isinstance(n.func, ast.Attribute) and n.func.attr == "add" and isinstance(n.func.value, ast.Subscript) and dotted(n.func.value.value) == dependents:
                 rec.append((pt, n))
